@@ -143,11 +143,13 @@ def cli(argv=sys.argv, mode='output'):
 
        See: https://massimolauria.net/cnfgen/graphformats.html"""
 
-    with redirect_stdin(args.input), msg_prefix('c '):
+    with redirect_stdin(args.input):
 
-        with msg_prefix('GRAPH INPUT: '):
+        with msg_prefix('c '), msg_prefix('GRAPH INPUT: '):
             interactive_msg(ask_kthlist_graph)
 
+        # (outside of the block above: an error in the graph is reported
+        # by `main`, which sets the comment marker itself)
         G = readGraph(sys.stdin, "dag", file_format="kthlist")
 
     F = PebblingFormula(G)
